@@ -101,7 +101,8 @@ def gen(src, consts):
     if len(outer) != 1:
         raise ExtractError('Channel.close: expected one try/finally')
     fin = [ast.unparse(x) for x in outer[0].finalbody if not is_logging(x)]
-    if len(fin) != 2 or 'self._inbound.clear()' not in fin[0] or fin[1] != 'self.set_state(self.CLOSED)':
+    # the finally block drops undelivered messages and ends with CLOSED (further resets there are not this property's business)
+    if len(fin) < 2 or 'self._inbound.clear()' not in fin[0] or fin[-1] != 'self.set_state(self.CLOSED)':
         raise ExtractError('Channel.close: finally block changed: %r' % fin)
     tb = [st for st in outer[0].body if not is_logging(st)]
     if not (isinstance(tb[0], ast.If) and ('if ' + ast.unparse(tb[0].test) + ':') == guard):
